@@ -70,24 +70,25 @@ type Options struct {
 
 // Run holds the subjects of one history.
 type Run struct {
-	Remote          filesystem.Filespace
-	Cache           *fscache.Cache
-	Subj            *mfs.Subject
-	Model           *mfs.Model // expected cache view
-	RM              *mfs.Node  // expected remote tree (as of the last successful Commit)
-	Facts           Facts
-	Hist            []Step
-	Opt             Options
-	tmp             string
-	Faults          *mfs.Faults // non-nil: the remote is wrapped in a fault-injecting decorator
-	FailedCommits   int64
-	NoRemoves       bool // after a failed Commit the remote is partly updated: removes are no longer known to be clean
-	Ambiguous       string
-	Mutations       int64
-	ReadsChecked    int64
-	TreeChecks      int64
-	IsolationChecks int64
-	CommitsChecked  int64
+	Remote           filesystem.Filespace
+	Cache            *fscache.Cache
+	Subj             *mfs.Subject
+	Model            *mfs.Model // expected cache view
+	RM               *mfs.Node  // expected remote tree (as of the last successful Commit)
+	Facts            Facts
+	Hist             []Step
+	Opt              Options
+	tmp              string
+	Faults           *mfs.Faults // non-nil: the remote is wrapped in a fault-injecting decorator
+	SourceOpenFaults int         // file copies whose remote source refused to open (injected)
+	FailedCommits    int64
+	NoRemoves        bool // after a failed Commit the remote is partly updated: removes are no longer known to be clean
+	Ambiguous        string
+	Mutations        int64
+	ReadsChecked     int64
+	TreeChecks       int64
+	IsolationChecks  int64
+	CommitsChecked   int64
 }
 
 // InitTree describes the initial remote tree.
